@@ -1781,3 +1781,7 @@ mod tests {
     info!("writerResult:  {:?}", write_result);
   }
 }
+
+#[cfg(rustdds_verif)]
+#[path = "/verif/harness/incrate/access/writer.rs"]
+mod verif_access;
